@@ -1,6 +1,7 @@
 import SeqIoModel.Proofs.ParallelInvariants
 import SeqIoModel.Proofs.FastaHistory
 import SeqIoModel.Proofs.AbstractReader
+import SeqIoModel.Proofs.FastqHistorySeek
 /-!
 # C07 – parallel processing delivers every record set exactly once with its own result
 
@@ -75,6 +76,36 @@ theorem fasta_batches_partition_records (inp : List UInt8) (cap : Nat) (hcap : 3
   obtain ⟨a', _, _, h3⟩ := SeqIo.Fasta.Hist.runA_delivers hns
     (SeqIo.Fasta.Hist.fasta_history_accepted inp cap hcap pol hpol script hs chunk _)
   simpa [SeqIo.Fasta.Hist.aInit] using h3
+
+/-- The same link for FASTQ: as long as no error is observed, the batches produced by repeated
+`read_record_set` calls are, concatenated, exactly the first items of S – all of them records –
+in order, each once (when the input contains an invalid record the batches stop before it and its
+error follows: `C04.fastq_all_histories_accepted`, `C15`). -/
+theorem fastq_batches_partition_records (inp : List UInt8) (cap : Nat) (hcap : 3 ≤ cap) (pol : Pol)
+    (hpol : SeqIo.Fastq.PolGrows pol) (script : List SeqIo.ReadEv) (hs : SeqIo.FillProofs.NoFail script)
+    (chunk n : Nat)
+    (hne : SeqIo.Fastq.Hist.NoErrObs
+      (SeqIo.Fastq.Hist.runM (SeqIo.Fastq.Hist.mkM inp cap pol script chunk)
+        (List.replicate n (SeqIo.Fastq.Hist.Op.set 0 none)))) :
+    SeqIo.Fastq.Hist.IsSegment (SeqIo.Spec.fastq inp) 0
+      (SeqIo.Fastq.Hist.deliveredCounts (List.replicate n (SeqIo.Fastq.Hist.Op.set 0 none))
+        (SeqIo.Fastq.Hist.runM (SeqIo.Fastq.Hist.mkM inp cap pol script chunk)
+          (List.replicate n (SeqIo.Fastq.Hist.Op.set 0 none))))
+      (SeqIo.Fastq.Hist.deliveredRecs (SeqIo.Spec.fastq inp) {}
+        (List.replicate n (SeqIo.Fastq.Hist.Op.set 0 none))
+        (SeqIo.Fastq.Hist.runM (SeqIo.Fastq.Hist.mkM inp cap pol script chunk)
+          (List.replicate n (SeqIo.Fastq.Hist.Op.set 0 none)))) := by
+  have hns : SeqIo.Fastq.Hist.SeekFree (List.replicate n (SeqIo.Fastq.Hist.Op.set 0 none)) := by
+    intro op hop
+    rw [List.eq_of_mem_replicate hop]
+    rfl
+  have hwf : ∀ op ∈ List.replicate n (SeqIo.Fastq.Hist.Op.set 0 none), op.wf = true := by
+    intro op hop
+    rw [List.eq_of_mem_replicate hop]
+    rfl
+  obtain ⟨a', _, _, h3⟩ := SeqIo.Fastq.Hist.acceptsA_delivers hns hne
+    (SeqIo.Fastq.fastq_history_accepted inp cap hcap pol hpol script hs chunk _ hwf)
+  simpa using h3
 
 /-- non-vacuity: a concrete schedule of a two-worker configuration reaches a state with a delivery -/
 def exampleCfg : Cfg :=
